@@ -2,7 +2,7 @@ import Qv.Proofs.PcboLe2
 /-!
 # C02: `add_constraint_lt_zero`, `add_constraint_gt_zero`, `add_constraint_ge_zero` (reductions to `le`)
 -/
-namespace Qv
+namespace Qv.PcboP
 
 /-! ## transport of `Sem` / `Struct` to another polynomial and relation -/
 
@@ -243,4 +243,4 @@ theorem addGeZero_sem {st : St} {P : Poly} {lam : Rat} {lt : Bool} {b : Option R
   · intro hv; have hv : eval x P ≥ 0 := hv; show -1 * eval x P ≤ 0; linarith
   · intro hv; have hv : -1 * eval x P ≤ 0 := hv; show eval x P ≥ 0; linarith
 
-end Qv
+end Qv.PcboP
